@@ -145,7 +145,15 @@ pub fn worker_main(args: &[String]) -> i32 {
         buf.clear();
         buf.push_str(&format!("S {}\n", i));
         let _ = out.write_all(buf.as_bytes());
-        let case = gen_case(sc, seed, i, thorough);
+        // a panic in the generator is a fault of the harness, never an observation about the repository
+        let case = match std::panic::catch_unwind(std::panic::AssertUnwindSafe(|| gen_case(sc, seed, i, thorough))) {
+            Ok(c) => c,
+            Err(_) => {
+                let msg = take_panic();
+                let _ = out.write_all(format!("H generator panicked at run index {}: {}\nR {}\n", i, msg, i).as_bytes());
+                continue;
+            }
+        };
         let vs = run_case_here(sc, &case, focus, thorough, &mut cov);
         buf.clear();
         if vs.is_empty() {
@@ -342,6 +350,10 @@ fn run_chunk(sc: &dyn Scenario, focus: &str, seed: u64, tier: &str, chunk: &Chun
         let mut last_panic = String::new();
         let mut r = res.lock().unwrap();
         for line in text.lines() {
+            if let Some(rest) = line.strip_prefix("H ") {
+                r.harness_errors.push(rest.to_string());
+                continue;
+            }
             if let Some(rest) = line.strip_prefix("P ") {
                 last_panic = rest.to_string();
                 continue;
